@@ -16,7 +16,7 @@ def adapt(run):
     for ev in run["ev"]:
         k = ev["ev"]
         if k == "emit_call":
-            cur = {"ev": "EmitCall", "e": ev["e"], "deliveries": [], "fired": False, "mdok": True}
+            cur = {"ev": "EmitCall", "e": ev["e"], "deliveries": [], "fired": False, "mdok": True, "fires": 0, "firedAfter": 0}
             out.append(cur)
         elif k in ("emit_ret", "emit_raised"):
             cur = None
@@ -32,7 +32,10 @@ def adapt(run):
                 out.append({"ev": "LateDelivery", "e": e, "c": ev["probe"]})
         elif k == "release" and ev["fired"]:
             if cur is not None and cur["e"] == ev["tag"] and ev["site"].endswith("@source"):
+                if not cur["fired"]:
+                    cur["firedAfter"] = len(cur["deliveries"])      # how many consumers had been called when the callback fired
                 cur["fired"] = True
+                cur["fires"] += 1
             else:
                 out.append({"ev": "FiredElsewhere", "e": ev["tag"], "site": ev["site"]})
         elif k == "cons_done":
@@ -62,6 +65,11 @@ def attribute(run, trace, idx):
             return "C10", "element %s reached a consumer without exactly its own metadata" % ev["e"]
         if ev["deliveries"] != exp:
             return "C02", "consumers were served %s instead of %s (fan-out order / completeness)" % (ev["deliveries"], exp)
+        if ev.get("fired") and ev.get("firedAfter", len(exp)) < len(exp):
+            return "C04", ("the completion callback of element %s fired when only %d of the %d consumers had been called"
+                           % (ev["e"], ev["firedAfter"], len(exp)))
+        if ev.get("fires", 0) > 1:
+            return "C05", "the completion callback of element %s fired %d times during one emit" % (ev["e"], ev["fires"])
         return "C05", "reference handling in _emit differs from the specification"
     if k in ("EmitDone", "EmitRaised"):
         return "C03", "%s at a point the specification does not allow (emit must wait for all reachable consumers)" % k
